@@ -36,10 +36,19 @@ Definition pstate_after (P : policy) (cs : list call) : pst P :=
   fst (prun P (pinit P) cs).
 
 (** The contract of property C14 for one call, relating the tracked set before
-    (T) and after (T').  [readmit_updates] is the clause "re-admitting a key
-    updates its cost rather than duplicating it"; it is a parameter so that the
-    faithful models of Fifo/Clock (finding F-19) can state the weaker clause
-    they do satisfy. *)
+    (T) and after (T').  The clauses for on_access, on_admit and evict are
+    parameters so that the faithful model of each policy can state exactly the
+    clause it satisfies; [step_ok]/[contract] below fix the access and evict
+    clauses to the full ones (what Lru/Fifo/Sieve/Clock are proved against). *)
+
+(* victims are tracked, distinct, reported at their recorded costs, and are
+   exactly what stops being tracked *)
+Definition evict_core (T T' : list kc) (vs : list N) (c : N) : Prop :=
+  NoDup vs
+  /\ incl vs (keys T)
+  /\ c = sumN (map (cost_of T) vs)
+  /\ Permutation T' (without vs T).
+
 Definition evict_ok (T T' : list kc) (n : N) (vs : list N) (c : N) : Prop :=
   NoDup vs
   /\ incl vs (keys T)                              (* only tracked keys *)
@@ -47,10 +56,15 @@ Definition evict_ok (T T' : list kc) (n : N) (vs : list N) (c : N) : Prop :=
   /\ Permutation T' (without vs T)                 (* stops tracking exactly the victims *)
   /\ (n <= total T -> n <= c).                     (* frees enough whenever possible *)
 
+(* evict_ok minus "frees enough whenever possible" (used to state refutations that do
+   not depend on sufficiency; every built-in policy now satisfies [evict_ok]) *)
+Definition evict_nosuff (T T' : list kc) (n : N) (vs : list N) (c : N) : Prop :=
+  evict_core T T' vs c.
+
 Definition admit_full (T T' : list kc) (k c : N) : Prop :=
   Permutation T' ((k, c) :: rm k T).
 
-(* what Fifo/Clock do: a fresh key is tracked with its cost; a key already
+(* what Fifo does (F-19-fifo): a fresh key is tracked with its cost; a key already
    tracked keeps its *old* cost (no duplicate). *)
 Definition admit_keep_old (T T' : list kc) (k c : N) : Prop :=
   match lookup k T with
@@ -58,20 +72,67 @@ Definition admit_keep_old (T T' : list kc) (k c : N) : Prop :=
   | Some _ => Permutation T' T
   end.
 
-Definition step_ok (admit_clause : list kc -> list kc -> N -> N -> Prop)
+(* what Arc does (F-20-arc-admit): the admission may silently stop tracking at most one
+   *other* key (it is moved to a ghost list, not nominated as a victim). *)
+Definition admit_demote (T T' : list kc) (k c : N) : Prop :=
+  exists D : list N,
+    (length D <= 1)%nat /\ incl D (keys T) /\ ~ In k D
+    /\ Permutation T' ((k, c) :: rm k (without D T)).
+
+(* AdmissionDecision::AdmitAndEvict(vs): the key is admitted (cost updated, no
+   duplicate) and the victims -- tracked keys, or the admitted key itself --
+   are exactly what stops being tracked.  task/janitor.rs removes them from the map. *)
+Definition admit_evict_full (T T' : list kc) (k c : N) (vs : list N) : Prop :=
+  NoDup vs
+  /\ incl vs (k :: keys T)
+  /\ Permutation T' (without vs ((k, c) :: rm k T)).
+
+(* on_access never changes which keys are tracked.  Lru/Fifo/Sieve/Clock/Random
+   ignore the cost argument; Slru/Arc/TinyLfu store it as the key's recorded cost
+   (`LruList::push_front(key, cost)` on the access path). *)
+Definition access_keep (T T' : list kc) (k c : N) : Prop := Permutation T' T.
+
+Definition access_update (T T' : list kc) (k c : N) : Prop :=
+  match lookup k T with
+  | None => Permutation T' T
+  | Some _ => Permutation T' ((k, c) :: rm k T)
+  end.
+
+(* AdmissionDecision::Reject is never acceptable: task/janitor.rs ignores it (the
+   entry stays in the map), so a rejecting policy would leave a resident key
+   untracked.  No built-in policy returns it. *)
+Definition step_okG
+           (access_clause : list kc -> list kc -> N -> N -> Prop)
+           (admit_clause : list kc -> list kc -> N -> N -> Prop)
+           (evict_clause : list kc -> list kc -> N -> list N -> N -> Prop)
            (T : list kc) (cl : call) (o : out) (T' : list kc) : Prop :=
   match cl, o with
-  | Access _ _, ODone => Permutation T' T
+  | Access k c, ODone => access_clause T T' k c
   | Admit k c, OAdmit => admit_clause T T' k c
+  | Admit k c, OAdmitEvict vs => admit_evict_full T T' k c vs
   | Remove k, ODone => Permutation T' (rm k T)
-  | Evict n, OVictims vs c => evict_ok T T' n vs c
+  | Evict n, OVictims vs c => evict_clause T T' n vs c
   | Clear, ODone => T' = []
   | _, _ => False
   end.
 
-Definition contract (admit_clause : list kc -> list kc -> N -> N -> Prop) (P : policy) : Prop :=
+Definition contractG access_clause admit_clause evict_clause (P : policy) : Prop :=
   forall cs : list call,
     let s := pstate_after P cs in
     NoDup (keys (ptracked P s))                               (* never duplicates a key *)
     /\ forall cl, let '(s', o) := pstep P s cl in
-                  step_ok admit_clause (ptracked P s) cl o (ptracked P s').
+                  step_okG access_clause admit_clause evict_clause
+                           (ptracked P s) cl o (ptracked P s').
+
+Definition step_ok (admit_clause : list kc -> list kc -> N -> N -> Prop) :=
+  step_okG access_keep admit_clause evict_ok.
+
+Definition contract (admit_clause : list kc -> list kc -> N -> N -> Prop) (P : policy) : Prop :=
+  contractG access_keep admit_clause evict_ok P.
+
+(** f64 roundings in the policy constructors and in Arc's adaptation step:
+    `(a as f64 / b as f64).round() as u64` and `(x as f64 * 0.20).round()` are
+    round-half-away-from-zero of the exact quotient.  On N that is
+    floor((2a + b) / 2b).  f64 agrees with the exact value for operands < 2^26
+    (D1 stays below that; DESIGN.md section 10). *)
+Definition round_div (a b : N) : N := (2 * a + b) / (2 * b).
